@@ -884,4 +884,243 @@ theorem accumulate_flatten : ∀ (chunks : List Bytes) (acc : Bytes) (e : SockEn
     exact h1.trans h2
 termination_by chunks => chunks.length
 
+/-! ### lexical confinement -/
+
+theorem splitSlash_ne_nil : ∀ f : Bytes, splitSlash f ≠ []
+  | [] => by simp [splitSlash]
+  | b :: t => by
+    simp only [splitSlash]
+    split
+    · simp
+    · split <;> simp
+
+/-- the first component is a prefix of the path, followed by nothing or by a '/' -/
+theorem splitSlash_head : ∀ (f s : Bytes) (ss : List Bytes), splitSlash f = s :: ss →
+    ∃ r, f = s ++ r ∧ (r = [] ∨ r.head? = some 47)
+  | [], s, ss, h => by
+    simp only [splitSlash, List.cons.injEq] at h
+    exact ⟨[], by simp [← h.1], Or.inl rfl⟩
+  | b :: t, s, ss, h => by
+    simp only [splitSlash] at h
+    split at h
+    · rename_i hb
+      simp only [List.cons.injEq] at h
+      exact ⟨b :: t, by simp [← h.1], Or.inr (by simp [hb])⟩
+    · split at h
+      · rename_i hn; exact absurd hn (splitSlash_ne_nil t)
+      · rename_i s' ss' hs'
+        simp only [List.cons.injEq] at h
+        obtain ⟨r, hr, hr2⟩ := splitSlash_head t s' ss' hs'
+        exact ⟨r, by rw [← h.1, hr]; simp, hr2⟩
+
+theorem isPrefixOf_dotdot (r : Bytes) : ([46, 46] : Bytes).isPrefixOf (46 :: 46 :: r) = true := by
+  simp [List.isPrefixOf]
+
+/-- a name without the substring ".." has no ".." component -/
+theorem no_dotdot_component : ∀ (f : Bytes), hasSub [46, 46] f = false → ∀ c ∈ splitSlash f, c ≠ [46, 46]
+  | [], _, c, hc => by
+    simp only [splitSlash, List.mem_singleton] at hc
+    subst hc; simp
+  | b :: t, h, c, hc => by
+    obtain ⟨hp, ht⟩ := hasSub_cons_false _ _ _ h
+    simp only [splitSlash] at hc
+    split at hc
+    · rcases List.mem_cons.1 hc with hc | hc
+      · subst hc; simp
+      · exact no_dotdot_component t ht c hc
+    · split at hc
+      · rename_i hn; exact absurd hn (splitSlash_ne_nil t)
+      · rename_i s ss hs
+        rcases List.mem_cons.1 hc with hc | hc
+        · subst hc
+          intro heq
+          simp only [List.cons.injEq] at heq
+          obtain ⟨r, hr, _⟩ := splitSlash_head t s ss hs
+          rw [heq.1, hr, heq.2] at hp
+          simp [List.isPrefixOf] at hp
+        · exact no_dotdot_component t ht c (by rw [hs]; exact List.mem_cons_of_mem _ hc)
+
+/-- without ".." components the walk never goes up: it succeeds and keeps every directory it
+started below (the starting stack is a suffix of the final one) -/
+theorem resolve_no_dotdot : ∀ (cs st : List Bytes), (∀ c ∈ cs, c ≠ [46, 46]) →
+    ∃ st', resolve st cs = some st' ∧ ∃ pre, st' = pre ++ st
+  | [], st, _ => ⟨st, rfl, [], rfl⟩
+  | c :: cs, st, h => by
+    have hc := h c List.mem_cons_self
+    have hcs : ∀ c ∈ cs, c ≠ [46, 46] := fun x hx => h x (List.mem_cons_of_mem _ hx)
+    simp only [resolve]
+    split
+    · exact resolve_no_dotdot cs st hcs
+    · obtain ⟨st', h1, pre, h2⟩ := resolve_no_dotdot cs (c :: st) hcs
+      exact ⟨st', h1, pre ++ [c], by rw [h2]; simp⟩
+
+/-! ### decimal numbers, `str[]` -/
+
+theorem decNat_length : ∀ (k n : Nat), n < 10 ^ (k + 1) → (decNat n).length ≤ k + 1
+  | 0, n, h => by
+    unfold decNat
+    have : n < 10 := by simpa using h
+    simp [this]
+  | k + 1, n, h => by
+    unfold decNat
+    split
+    · simp
+    · have : n / 10 < 10 ^ (k + 1) := by
+        have : 10 ^ (k + 1 + 1) = 10 * 10 ^ (k + 1) := by rw [Nat.pow_succ, Nat.mul_comm]
+        omega
+      have := decNat_length k (n / 10) this
+      simp only [List.length_append, List.length_singleton]
+      omega
+
+theorem decimal_length (x : Int) (h : x.natAbs < 10 ^ 10) : (decimal x).length ≤ 11 := by
+  have := decNat_length 9 x.natAbs h
+  unfold decimal
+  split
+  · simp only [List.length_cons]; omega
+  · omega
+
+/-! ### substitution -/
+
+theorem substGo_id (vals : List Bytes) : ∀ (s : Bytes), (36 : UInt8) ∉ s → substGo vals 0 s = s
+  | [], _ => rfl
+  | c :: t, h => by
+    have hc : c ≠ 36 := fun hc => h (hc ▸ List.mem_cons_self)
+    simp only [substGo, hc, ↓reduceIte]
+    rw [substGo_id vals t (fun ht => h (List.mem_cons_of_mem _ ht))]
+
+theorem cstr_append_drop : ∀ (b : Bytes), cstr b ++ b.drop (cstr b).length = b
+  | [] => rfl
+  | x :: t => by
+    by_cases hx : (x != 0) = true
+    · have := cstr_append_drop t
+      simp only [cstr, List.takeWhile, hx, List.length_cons, List.drop_succ_cons, List.cons_append] at this ⊢
+      rw [this]
+    · simp [cstr, List.takeWhile, hx]
+
+theorem substChunk_id (vals : List Bytes) (chunk : Bytes) (h : (36 : UInt8) ∉ chunk) : substChunk vals chunk = chunk := by
+  have h' : (36 : UInt8) ∉ cstr chunk := fun hc => h (mem_takeWhile _ _ _ hc)
+  unfold substChunk
+  rw [substGo_id vals (cstr chunk) h']
+  exact cstr_append_drop chunk
+
+theorem chunksOf_length (n : Nat) : ∀ (fuel : Nat) (b : Bytes), ∀ c ∈ chunksOf n fuel b, c.length ≤ n
+  | 0, _, c, hc => by simp [chunksOf] at hc
+  | fuel + 1, b, c, hc => by
+    simp only [chunksOf] at hc
+    split at hc
+    · simp at hc
+    · rcases List.mem_cons.1 hc with hc | hc
+      · subst hc; simp [List.length_take]; omega
+      · exact chunksOf_length n fuel _ c hc
+
+theorem chunksOf_flatten (n : Nat) (hn : 0 < n) : ∀ (fuel : Nat) (b : Bytes), b.length ≤ fuel →
+    (chunksOf n fuel b).flatten = b
+  | 0, b, h => by
+    have : b = [] := List.eq_nil_of_length_eq_zero (by omega)
+    simp [chunksOf, this]
+  | fuel + 1, b, h => by
+    simp only [chunksOf]
+    split
+    · rename_i hb; simp at hb; simp [hb]
+    · rename_i hb
+      have hpos : 0 < b.length := by
+        apply List.length_pos_iff.2; simpa using hb
+      simp only [List.flatten_cons]
+      rw [chunksOf_flatten n hn fuel (b.drop n) (by simp only [List.length_drop]; omega)]
+      exact List.take_append_drop n b
+
+/-! ### the whole call -/
+
+theorem processCallW_fst (fixed : Bool) (cfg : Cfg) (chunks : List Bytes) (e : SockEnd) :
+    (processCallW fixed cfg chunks e).1 =
+      if cfg.dir.length > dirMax then .close .dirTooLong
+      else match (accumulate [] chunks e).1 with
+        | .pending => .pending
+        | .closed why => .close why
+        | .complete b _ => (decideW fixed cfg b).1 := by
+  unfold processCallW
+  split
+  · rfl
+  · cases ha : accumulate [] chunks e with
+    | mk r ws => cases r <;> rfl
+
+theorem processCallW_writes (fixed : Bool) (cfg : Cfg) (chunks : List Bytes) (e : SockEnd) (w : W)
+    (hw : w ∈ (processCallW fixed cfg chunks e).2.2) :
+    cfg.dir.length ≤ dirMax ∧
+      (w = ⟨.fullFname, cfg.dir.length + 1⟩ ∨ w ∈ (accumulate [] chunks e).2 ∨
+        ∃ b rest, (accumulate [] chunks e).1 = .complete b rest ∧ w ∈ (decideW fixed cfg b).2) := by
+  unfold processCallW at hw
+  split at hw
+  · simp at hw
+  · rename_i hd
+    refine ⟨by omega, ?_⟩
+    cases ha : accumulate [] chunks e with
+    | mk r ws =>
+      rw [ha] at hw
+      cases r with
+      | pending =>
+        simp only [List.mem_cons] at hw
+        rcases hw with hw | hw
+        · exact Or.inl hw
+        · exact Or.inr (Or.inl hw)
+      | closed why =>
+        simp only [List.mem_cons] at hw
+        rcases hw with hw | hw
+        · exact Or.inl hw
+        · exact Or.inr (Or.inl hw)
+      | complete b rest =>
+        change w ∈ _ :: (ws ++ (decideW fixed cfg b).2) at hw
+        simp only [List.mem_cons, List.mem_append] at hw
+        rcases hw with hw | hw | hw
+        · exact Or.inl hw
+        · exact Or.inr (Or.inl hw)
+        · exact Or.inr (Or.inr ⟨b, rest, rfl, hw⟩)
+
+theorem decideW_fst (fixed : Bool) (cfg : Cfg) (b : Bytes) :
+    (decideW fixed cfg b).1 =
+      match (if cfg.proxy then proxyBranch fixed cfg (cstr b) else none) with
+      | some o => o
+      | none => (getBranch cfg (cstr b)).1 := by
+  unfold decideW
+  simp only []
+  split <;> simp_all
+
+theorem decideW_snd (fixed : Bool) (cfg : Cfg) (b : Bytes) (w : W) (hw : w ∈ (decideW fixed cfg b).2) :
+    w ∈ (getBranch cfg (cstr b)).2 := by
+  unfold decideW at hw
+  simp only [] at hw
+  split at hw
+  · simp at hw
+  · exact hw
+
+theorem decideW_noproxy (fixed : Bool) (cfg : Cfg) (b : Bytes) (hp : cfg.proxy = false) :
+    (decideW fixed cfg b).1 = (getBranch cfg (cstr b)).1 := by
+  rw [decideW_fst]; simp [hp]
+/-! ### the harmless alphabet, as a table over all byte values -/
+
+def harmlessOk (n : Nat) : Bool :=
+  !harmless (UInt8.ofNat n) ||
+    (decide (32 ≤ n) && decide (n < 127) && n != 34 && n != 39 && n != 60 && n != 62 && n != 38 && n != 92 && n != 96)
+
+set_option maxRecDepth 8000 in
+theorem harmless_table_all : (List.range 256).all harmlessOk = true := by decide
+
+theorem harmless_table (n : Nat) (hn : n < 256) (h : harmless (UInt8.ofNat n) = true) :
+    (32 ≤ n ∧ n < 127 ∧ n ≠ 34 ∧ n ≠ 39 ∧ n ≠ 60 ∧ n ≠ 62 ∧ n ≠ 38 ∧ n ≠ 92 ∧ n ≠ 96) := by
+  have := List.all_eq_true.1 harmless_table_all n (List.mem_range.2 hn)
+  simp only [harmlessOk, h, Bool.not_true, Bool.false_or, Bool.and_eq_true, bne_iff_ne, ne_eq,
+    decide_eq_true_eq] at this
+  obtain ⟨⟨⟨⟨⟨⟨⟨⟨h1, h2⟩, h3⟩, h4⟩, h5⟩, h6⟩, h7⟩, h8⟩, h9⟩ := this
+  exact ⟨h1, h2, h3, h4, h5, h6, h7, h8, h9⟩
+
+theorem litDotDot_eq : litDotDot = [46, 46] := by decide
+
+theorem getBranch_no_crash_no_pending (cfg : Cfg) (s : Bytes) :
+    (getBranch cfg s).1 ≠ .crash ∧ (getBranch cfg s).1 ≠ .pending ∧ (getBranch cfg s).1 ≠ .proxyOk ∧
+      ∀ code, (getBranch cfg s).1 = .error code → code = 404 := by
+  unfold getBranch
+  simp only []
+  repeat' split
+  all_goals simp
+
 end VncModel.Httpd
